@@ -657,6 +657,36 @@ def run(chk):
     for part in batches(trees, 3000):
         process_trees(chk, part)
     chk.exhaustive = n_small is None
+    history_stream(chk, 300 if quick else 3000)
+
+
+def history_stream(chk, n):
+    """The round trip must not depend on what was parsed (and edited) earlier in the process: the metadata of one
+    parsed tree is edited in place, then other texts are parsed and round-tripped; they must not see the edit."""
+    import penman
+    rng = chk.rng
+    for i in range(n):
+        s1 = gen.random_penman_text(rng, p_bad=0)
+        s2 = gen.random_penman_text(rng, p_bad=0)
+        case = {'stream': 'history', 'first': s1, 'second': s2}
+        chk.count(('history', s1, s2))
+        try:
+            t1 = penman.parse(s1)
+            want = penman.parse(s2).metadata.copy()
+            want_text = penman.format(penman.parse(s2))
+            t1.metadata['zz-edited'] = 'by the caller %d' % i      # a caller edits ITS tree
+            t1.node[1].append((':zz', 'edited'))
+            t2 = penman.parse(s2)
+            got_text = penman.format(t2)
+        except penman.DecodeError:
+            continue
+        if dict(t2.metadata) != dict(want) or got_text != want_text:
+            chk.fail('history', 'parsing/formatting a text gives a different result after an earlier parsed tree was edited '
+                                f'in place: metadata {dict(t2.metadata)!r} vs {dict(want)!r}', case)
+        back = penman.parse(got_text)
+        if back.node != t2.node or dict(back.metadata) != dict(t2.metadata):
+            chk.fail('roundtrip', 'round trip fails after an earlier parsed tree was edited in place', case)
+    chk.stat('history-pairs', n)
 
 
 def _concepts(node):
